@@ -40,7 +40,7 @@ def main():
            "Each change was confirmed in a scratch worktree by `tools/seed_import.py` (demo passes unchanged, pinned suite 156 passed with the change, demo fails with the change) and is kept under "
            "`seeded/<name>/` (patch.diff, demo.py, meta.json). `tools/seed_eval.py` applies each patch to a scratch worktree (never /repo), points the quick check of its property at that tree (`AW_REPO`) "
            "and records the outcome. **%d of %d seeded changes are reported by the quick check of their own property** on the current machinery." % (ndet, len(rows)), "",
-           "On first evaluation the checks of the time missed 9 of 40 (round 1), 14 of 40 (round 2), 8 of 40 (round 3), 10 of 20 (round 4, which went to the ten properties with the highest earlier miss rates), 3 of 20 (round 5, the other ten properties), 7 of 20 (round 6, the first ten again) and ROUND7 of 40 (round 7, all properties; by then many submissions repeated earlier ideas); every miss was analysed and the generators / judges strengthened until it was reported "
+           "On first evaluation the checks of the time missed 9 of 40 (round 1), 14 of 40 (round 2), 8 of 40 (round 3), 10 of 20 (round 4, which went to the ten properties with the highest earlier miss rates), 3 of 20 (round 5, the other ten properties), 7 of 20 (round 6, the first ten again) and 8 of 40 (round 7, all properties; by then many submissions repeated earlier ideas); every miss was analysed and the generators / judges strengthened until it was reported "
            "(never by special-casing the seeded input). What was added in response: runs of calls without intermediate reads judged as one batch "
            "(lazy-commit / rollback / cache interactions), total projection (an unreadable bucket is an observation, not a harness crash), deletes of ids that live in another bucket, "
            "out-of-contract and absurd ids ending a no-read run, stale `Bucket` handles described in every projection, bucket re-creation in the ownership model, window edges placed at the ends of "
@@ -55,7 +55,9 @@ def main():
            "one observation, with a control execution of the same history without that call (C04), Event / Rule objects that went through an earlier call with other values (C09, C10, C15, C16, C19), legacy stores written by "
            "separate processes and both profiles first-opened in one process (C14), a bucket listing that cannot be produced is an observation (C05), deletion of buckets with more than a thousand events with every statement a "
            "crash point (C06), a uniform sub-millisecond part on every duration of a heartbeat stream (C07), data / id reassignment between two serialisations (C13), regexes containing blanks (C19), raw unicode line separators "
-           "and multi-line strings in TOML (C20), and the stricter reading of 'the previous flush' that exposed F17 (C18).", "",
+           "and multi-line strings in TOML (C20), and the stricter reading of 'the previous flush' that exposed F17 (C18); after round 7: event objects that carry an id of their own handed to replace_last and a sub-millisecond part on every duration of a store history (C02), "
+           "bucket contents whose events reached their instants by replacement (C03), interval pieces of whole days (C09), a failed query followed by a change of the bucket and the same window again (C12), heartbeats built from ISO strings with "
+           "varying offsets (C07), data dicts built in different key orders (C16), bulk writes beyond internal chunk sizes after idle time (C18).", "",
            "| seeded change | property | what it needs in order to manifest | quick check | first reported line |", "|---|---|---|---|---|"] + rows + ["",
            "Seeded changes that stopped being breaking changes when a genuine defect was repaired (kept for the record, not counted above):", "",
            "| seeded change | property | why it no longer breaks the property |", "|---|---|---|"] + neutral + ["",
